@@ -63,6 +63,9 @@ EXPECT = {
 DEEP = {p: ["CacheVerif.Proofs.DeepCache", "CacheVerif.Proofs.DeepCacheOf", "CacheVerif.Proofs.DeepSource"] for p in ("C01", "C02", "C05", "C06", "C07", "C08", "C09", "C12", "C15")}
 # the janitor goroutine and the finalizer, printed from the two constructors: a tick = one DeleteExpired pass of the model
 DEEP["C15"] = DEEP["C15"] + ["CacheVerif.Proofs.DeepJanitor"]
+# what the writing methods of Map / MapOf pass to doCompute (go2deep -wrappers): M3 makes exactly those calls, and with
+# doCompute = specDc they are the builtin-map methods of their names
+WRAP = {p: ["CacheVerif.Proofs.Wrappers"] for p in ("C03", "C04", "C05", "C11")}
 
 # the concurrent cache model M5 is tied to the source text by: solo run of M5 = sequential step (ConcCacheSolo), and
 # steps of M5 = atomic actions the tracing interpreter records on the generated syntax (DeepTrace, both twins)
@@ -100,6 +103,9 @@ def common(run, modules):
     for dm in DEEP.get(run.pid, []):
         dok_, dlog_ = R.lake_build(run, [dm], timeout=900)
         run.oblige("lake build %s (for every state and call, the interpreter of the Go subset run on the method bodies printed from the working tree computes exactly the hand-written model's step)" % dm, dok_, dlog_)
+    for wm in WRAP.get(run.pid, []):
+        wok_, wlog_ = R.lake_build(run, [wm], timeout=900)
+        run.oblige("lake build %s (the sequential table model makes the calls of doCompute the methods printed from the working tree make; with doCompute = specDc each is the builtin-map method of its name)" % wm, wok_, wlog_)
     for tm in TRACE.get(run.pid, []):
         tok_, tlog_ = R.lake_build(run, [tm], timeout=900)
         run.oblige("lake build %s (the concurrent cache model M5, run by one thread, computes the sequential step and takes exactly the atomic actions the tracing interpreter records on the method bodies printed from the working tree)" % tm, tok_, tlog_)
